@@ -233,8 +233,9 @@ Proof. rewrite eolpm_m. destruct (s_m s); auto; discriminate. Qed.
 Definition cut_info (o : opts) (r : rstate) (d : Z) (consumed : list (list N)) (rest : list N) (c : chunk) : Prop :=
   exists consumed0 L sL bufL s1 acc1, consumed = consumed0 ++ [L] /\
     let '(rL, dL) := rrun r d (concat consumed0) (peek (L ++ rest)) in
-    R (s_m sL) rL (peek (L ++ rest)) /\ s_m sL <> mHash /\ s_paren sL = dL /\ bare_hash rL (L ++ rest) = false /\
-    line_ok L /\
+    R (s_m sL) rL (peek (L ++ rest)) /\ s_m sL <> mHash /\ s_m sL <> mPlus /\ s_m sL <> mMinus /\
+    s_paren sL = dL /\ bare_hash rL (L ++ rest) = false /\
+    Forall line_ok consumed0 /\ line_ok L /\
     run_line sL (Z.of_nat (length bufL)) [] L = Some (s1, acc1) /\ c_src c = bufL ++ rev acc1 /\
     s_ign s1 = false /\ s_m (eol_reset_comment s1) = mNormal /\
     (0 <=? s_first s1) && lastIsKw (o_v1cxx o) (c_src c) (s_first s1) (s_last s1) = false.
@@ -247,7 +248,8 @@ Qed.
 
 Lemma rm_loop_spec o : forall rl s buf r d,
   rl <> [] -> lines_wf rl ->
-  R (s_m s) r (peek (concat rl)) -> s_m s <> mHash -> s_paren s = d -> bare_hash r (concat rl) = false ->
+  R (s_m s) r (peek (concat rl)) -> s_m s <> mHash -> s_m s <> mPlus -> s_m s <> mMinus ->
+  s_paren s = d -> bare_hash r (concat rl) = false ->
   exists c rl' consumed, rm_loop o rl s buf = Some (c, rl') /\ rl = consumed ++ rl' /\ consumed <> [] /\ lines_wf rl' /\
     let '(r', d') := rrun r d (concat consumed) (peek (concat rl')) in
     bare_hash r' (concat rl') = false /\
@@ -256,7 +258,7 @@ Lemma rm_loop_spec o : forall rl s buf r d,
     ((c_err c = ENone /\ rl' <> [] /\ r' = RCode /\ d' <= 0 /\ cut_info o r d consumed (concat rl') c)
      \/ (c_err c <> ENone /\ rl' = [])).
 Proof.
-  induction rl as [|l rest IH]; intros s buf r d Hne Hwf HR Hm Hd HB; [contradiction|].
+  induction rl as [|l rest IH]; intros s buf r d Hne Hwf HR Hm Hpl Hmi Hd HB; [contradiction|].
   destruct rest as [|l2 rest2].
   - (* the last line, delivered with io.EOF *)
     simpl in Hwf. simpl concat in *. rewrite app_nil_r in *.
@@ -299,6 +301,8 @@ Proof.
       - rewrite Erest. discriminate.
       - rewrite Em3. apply R_eolpm. exact HR1.
       - rewrite Em3. apply nohash_eolpm. exact Hm1.
+      - rewrite Em3, eolpm_m. destruct (s_m s2); discriminate.
+      - rewrite Em3, eolpm_m. destruct (s_m s2); discriminate.
       - congruence.
       - exists c, rl', ((seg ++ [10%N]) :: cons2). split; [exact Hrm|].
         split; [simpl; rewrite Hsplit; reflexivity|]. split; [discriminate|]. split; [exact Hwf2|].
@@ -316,7 +320,10 @@ Proof.
         simpl concat. rewrite rrun_app.
         assert (Ecat2 : concat c0 ++ L ++ concat rl' = concat rest).
         { rewrite Hsplit, Hc0, !concat_app. simpl. rewrite app_nil_r, <- app_assoc. reflexivity. }
-        rewrite Ecat2, Er1. exact Hci. }
+        rewrite Ecat2, Er1.
+        destruct (rrun r1 d1 (concat c0) (peek (L ++ concat rl'))) as [rL dL].
+        destruct Hci as (X1 & X2 & X3 & X4 & X5 & X6 & X7 & Xrest).
+        repeat (split; [assumption|]). split; [constructor; assumption|]. exact Xrest. }
     rewrite Hunf.
     destruct (may_stop o s2) eqn:Ems.
     + destruct ((0 <=? s_first s2) && lastIsKw (o_v1cxx o) (buf ++ rev acc1) (s_first s2) (s_last s2)) eqn:Ekw.
@@ -393,7 +400,7 @@ Proof.
     exists []. split; [reflexivity|].
     destruct Hcase as [(_ & _ & _ & _ & Hci)|(_ & ->)].
     + exfalso. destruct Hci as (c0 & L & sL & bufL & s1 & acc1 & -> & Hci).
-      destruct (rrun RCode 0 (concat c0) (peek (L ++ concat rl'))). destruct Hci as (_ & _ & _ & _ & HL & _).
+      destruct (rrun RCode 0 (concat c0) (peek (L ++ concat rl'))). destruct Hci as (_ & _ & _ & _ & _ & _ & _ & HL & _).
       apply line_ok_length in HL. rewrite concat_app, app_length in Hlen. simpl in Hlen. rewrite app_nil_r in Hlen. lia.
     + split; [|constructor]. simpl in Hout. simpl. rewrite Hout. simpl. reflexivity.
 Qed.
